@@ -3,20 +3,131 @@
 The history monitor (FSM transitions chain; CONN_OPEN first, CONN_CLOSE once
 and last among connection events; ESTABLISHED at most once and before
 RELEASED/ABORTED; PDU/DATA notifications equal the bytes on the wire tap) is
-evaluated on every execution of the two-AE life-cycle scenarios under every
-schedule with at most D deviations.
+evaluated
+
+(1) on every execution of the two-AE life-cycle scenarios under every
+    schedule with at most D deviations, and
+(2) on the real local side against a scripted raw peer that ends every
+    exchange by staying silent with the connection open (release, abort,
+    rejection, protocol error, unanswered request), with a *slow* notification
+    handler: for every notification event and each of its first 8 (thorough:
+    12) invocations the handler takes longer than the ACSE / ARTIM time-out at
+    exactly that invocation, so that timer
+    expiries coincide with the reactor's own housekeeping.
 """
 from __future__ import annotations
 
-from vk import core, lifecycle, monitors as M
+from vk import core, explore, lifecycle, monitors as M, peer as P, rawpeer, scen
 
 MONS = [M.mon_history]
+SLOW = 2.5  # seconds of virtual time spent inside the slow handler (ACSE / ARTIM time-out: 2 s)
+ECHO_RQ = P.pdata(1, P.command_set(0x0030, msg_id=7))
+ECHO_RSP = P.pdata(1, P.command_set(0x8030, rsp_to=1, status=0))
+
+SCRIPTS = {
+    # local side is the acceptor
+    "acc-release": ("acceptor", [("send", P.assoc_rq()), ("expect", 1), ("send", P.RELEASE_RQ), ("expect", 2), ("silent",)]),
+    "acc-echo-release": ("acceptor", [("send", P.assoc_rq()), ("expect", 1), ("send", ECHO_RQ), ("expect", 2), ("send", P.RELEASE_RQ), ("expect", 3), ("silent",)]),
+    "acc-peer-abort": ("acceptor", [("send", P.assoc_rq()), ("expect", 1), ("send", P.abort()), ("silent",)]),
+    "acc-bad-version": ("acceptor", [("send", P.assoc_rq(pv=2)), ("expect", 1), ("silent",)]),
+    "acc-second-rq": ("acceptor", [("send", P.assoc_rq()), ("expect", 1), ("send", P.assoc_rq()), ("expect", 2), ("silent",)]),
+    "acc-peer-close": ("acceptor", [("send", P.assoc_rq()), ("expect", 1), ("close",)]),
+    # local side is the requestor (user: associate, echo, release)
+    "req-normal": ("requestor", [("expect", 1), ("send", P.assoc_ac()), ("expect", 2), ("send", ECHO_RSP), ("expect", 3), ("send", P.RELEASE_RP), ("silent",)]),
+    "req-rejected": ("requestor", [("expect", 1), ("send", P.assoc_rj()), ("silent",)]),
+    "req-peer-abort": ("requestor", [("expect", 1), ("send", P.assoc_ac()), ("expect", 2), ("send", P.abort()), ("silent",)]),
+    "req-echo-unanswered": ("requestor", [("expect", 1), ("send", P.assoc_ac()), ("expect", 2), ("silent",)]),
+    "req-release-unanswered": ("requestor", [("expect", 1), ("send", P.assoc_ac()), ("expect", 2), ("send", ECHO_RSP), ("expect", 3), ("silent",)]),
+}
+
+
+def mon_history_local(scn, s, ctx, why):
+    """mon_history for the one real side of a raw-peer scenario."""
+    a = ctx["res"].get("assoc")
+    if scn.role == "acceptor":
+        view = {"res": {}, "acc_assocs": [a] if a is not None else [], "ra": ctx["rec"], "rr": ctx["rec"]}
+    else:
+        view = {"res": {"assoc": a}, "acc_assocs": [], "ra": ctx["rec"], "rr": ctx["rec"]}
+    v = list(M.mon_history(scn, s, view, why))
+    for th, kind, msg in M.thread_exceptions(s):
+        v.append((f"uncaught-{kind}-in-{th}", f"{scn.name}: uncaught exception in {th}: {msg}"))
+    if why != "terminated":
+        v.append((f"not-terminated-{why}", f"{scn.name}: ended {why}"))
+    return v
+
+
+class SlowHandler(rawpeer.RawPeerScenario):
+    def __init__(self, script_name, slow_event, nth):
+        role, script = SCRIPTS[script_name]
+        super().__init__(role, script, name=f"slow[{script_name},{slow_event or 'none'}@{nth}]", patience=30.0)
+        self.script_name, self.slow_event, self.nth = script_name, slow_event, nth
+        self.max_time = 90.0
+
+        def extra(ctx, sched):
+            if not slow_event:
+                return []
+            from pynetdicom import evt
+
+            count = {"n": 0}
+
+            def slow(event):
+                count["n"] += 1
+                if count["n"] == nth:
+                    sched.sleep(SLOW)
+
+            return [(getattr(evt, slow_event), slow)]
+
+        self.extra_handlers = extra
+
+    def check(self, s, ctx, why):
+        out = []
+        for k, what in mon_history_local(self, s, ctx, why):
+            out.append((f"slow[{self.script_name}]:{self.slow_event or 'none'}:{k}", what))
+        return out
+
+
+def slow_scenarios(quick):
+    out = []
+    for name in SCRIPTS:
+        out.append(SlowHandler(name, None, 1))
+        for ev in scen.Recorder.NOTIF:
+            for nth in range(1, 9 if quick else 13):
+                out.append(SlowHandler(name, ev, nth))
+    return out
 
 
 def run(ctx: core.Ctx) -> core.Result:
     scns = [lifecycle.Lifecycle(rq, ac, monitors=MONS) for rq in lifecycle.REQ_SCRIPTS for ac in lifecycle.ACC_SCRIPTS]
-    return lifecycle.run_family(ctx, scns, D=ctx.pick(1, 2))
+    res = lifecycle.run_family(ctx, scns, D=ctx.pick(1, 2))
+    slow = slow_scenarios(ctx.quick)
+    sres = explore.explore_family(slow, D=0, seed=ctx.seed)
+    seen = {v.key for v in res.violations}
+    n_exec = 0
+    outcomes = set()
+    for scn, r in zip(slow, sres):
+        n_exec += r["stats"]["executions"]
+        outcomes |= {(scn.script_name, k) for k in r["summaries"]}
+        for k, (what, pfx) in r["viols"].items():
+            if k not in seen:
+                seen.add(k)
+                res.violations.append(core.Violation(k, what, {"kind": "slow", "script": scn.script_name, "event": scn.slow_event, "nth": scn.nth}))
+    res.coverage["slow_handler_scenarios"] = len(slow)
+    res.coverage["slow_handler_executions"] = n_exec
+    res.coverage["slow_handler_distinct_outcomes"] = len(outcomes)
+    res.coverage["traces_validated_against_impl"] += n_exec
+    res.assumptions.append(f"slow-handler layer: {len(SCRIPTS)} raw-peer scripts x (no slow handler + 17 notification events x the 1st .. 8th (thorough: 12th) invocation of the handler being the slow one), handler duration {SLOW}s of virtual time, default schedule")
+    return res
 
 
 def replay(ctx, data):
+    if data.get("kind") == "slow":
+        r = explore.execute(SlowHandler(data["script"], data["event"], data["nth"]), (), want_obs=True)
+        for o in r["obs"]:
+            if o[0] == "evt" and o[3] in ("EVT_DATA_SENT", "EVT_DATA_RECV"):
+                continue
+            print(o)
+        print(r["why"], r["summary"])
+        for k, w in r["viol"]:
+            print("VIOLATED:", k, w)
+        return 1 if r["viol"] else 0
     return lifecycle.replay(ctx, data, MONS)
